@@ -147,8 +147,25 @@ def gen_typed(rnd, t, lib, name=''):
     if t == 'regex':
         return re.compile(rnd.choice(['a+', '(b)(c)?', ',']))
     if t == 'function':
-        return rnd.choice([lib['systemCompare'], lib['systemBoolean']])
+        return rnd.choice([lib['systemCompare'], lib['systemBoolean'], host_minus, host_minus, host_half])
     return gen_any(rnd, 1)
+
+
+def host_minus(args, options):  # pylint: disable=unused-argument
+    """Comparison / callback function whose RESULT is spelled like its operands (int for ints, float for floats)."""
+    a, b = (list(args) + [0, 0])[:2]
+    if isinstance(a, (int, float)) and isinstance(b, (int, float)) and not isinstance(a, bool) and not isinstance(b, bool):
+        return a - b
+    return 0
+
+
+def host_half(args, options):  # pylint: disable=unused-argument
+    a = args[0] if args else 0
+    return a * 2 if isinstance(a, (int, float)) and not isinstance(a, bool) else 0
+
+
+refval.register_fn('host_minus', host_minus)
+refval.register_fn('host_half', host_half)
 
 
 def argmodel(fn, L):
@@ -293,6 +310,9 @@ def run_library(spec, acc, api):
     stamps = [{'t': 1700000000000 + 86400000 * i, 'c': i % 3} for i in range(spec['n'] // 2 if spec['n'] < 8000 else 6500)]
     for fn in ('average', 'stddev', 'sum'):
         one_case('dataAggregate', [copy.deepcopy(stamps), {'categories': ['c'], 'measures': [{'field': 't', 'function': fn}]}], acc, api)
+    for arr in ([3, 1, 2], [10, 9, 8, 7, 1], [2, 2, 1, 3, 0, -1], [5, 4]):
+        one_case('arraySort', [list(arr), host_minus], acc, api)
+        one_case('arrayIndexOf', [list(arr), host_half], acc, api)
     for name, args in [('numberToFixed', [255, 28]), ('mathRound', [2.5, 25]), ('arraySet', [[1, 2, 3], 1, 9]), ('dataTop', [[{'a': 1}, {'a': 2}], 1]),
                        ('arrayNewSize', [3, 7]), ('stringRepeat', ['ab', 3]), ('numberParseInt', ['ff', 16]), ('datetimeNew', [2020, 14, 35, 25, 61, 61, 1001]),
                        ('arraySlice', [[1, 2, 3, 4], 1, 3]), ('stringSlice', ['abcdef', 2, 4]), ('stringCharCodeAt', ['abc', 1]), ('jsonStringify', [{'a': [1]}, 2]),
@@ -334,6 +354,7 @@ def run_operators(acc, api):
 
 
 SCRIPT_TEMPLATES = [
+    "function cmp(a, b):\n    return a - b\nendfunction\nfunction desc(a, b):\n    return if(a < b, 1, if(a > b, 0 - 1, 0))\nendfunction\narr = arrayNew(3, 1, {K}, 7, 2)\nreturn arrayNew(arraySort(arrayCopy(arr), cmp), arraySort(arrayCopy(arr), desc), arraySort(arr))",
     "arr = arrayNew(10, 20, 30, 40)\nout = arrayNew()\nfor v, i in arr:\n    arrayPush(out, arrayGet(arr, i), stringCharCodeAt('abcd', i), arraySlice(arr, i), stringSlice('abcd', i))\n    arraySet(arr, i, v + {K})\nendfor\nreturn arrayNew(out, arr)",
     "arr = arrayNewSize({K}, 'x')\narraySet(arr, {K} - 1, 'last')\nreturn arrayNew(arr, stringRepeat('ab', {K}), numberToFixed(3.14159, {K}), numberParseInt('101', {K} + 2), stringFromCharCode(60 + {K}))",
     "dd = arrayNew(objectNew('a', 1, 'c', 'x'), objectNew('a', 2, 'c', 'x'), objectNew('a', 3, 'c', 'y'))\nreturn arrayNew(dataTop(dd, {K}), dataTop(dd, {K}, arrayNew('c')), jsonStringify(dd, {K}), mathRound(2.34567, {K}), arrayIndexOf(arrayNew(1, 2, 1), 1, {K} - 1))",
